@@ -610,3 +610,41 @@ func calleeName(c ssa.CallInstruction) string {
 	}
 	return sc.Name()
 }
+
+// retVal returns the value returned as result i of a Return instruction,
+// looking through go/ssa's defer-spilled results (functions with defers store
+// the result into an Alloc, run the defers and return a load of the Alloc).
+func retVal(r *ssa.Return, i int) ssa.Value {
+	if i >= len(r.Results) {
+		return nil
+	}
+	v := r.Results[i]
+	u, ok := v.(*ssa.UnOp)
+	if !ok || u.Op != token.MUL {
+		return v
+	}
+	a, ok := u.X.(*ssa.Alloc)
+	if !ok {
+		return v
+	}
+	// nearest preceding store to the alloc, searching this block backwards and
+	// then unique predecessors.
+	b := r.Block()
+	idx := instrIndex(u)
+	for depth := 0; depth < 6 && b != nil; depth++ {
+		for j := idx - 1; j >= 0; j-- {
+			if st, ok := b.Instrs[j].(*ssa.Store); ok && st.Addr == ssa.Value(a) {
+				return st.Val
+			}
+		}
+		if len(b.Preds) != 1 {
+			break
+		}
+		b = b.Preds[0]
+		idx = len(b.Instrs)
+	}
+	return v
+}
+
+// retIsNil: result i of the return is the nil constant (through spills).
+func retIsNil(r *ssa.Return, i int) bool { return isNilConst(retVal(r, i)) }
